@@ -101,6 +101,7 @@ def g_retrieval(prop):
         for node in ('FunctionDef', 'Assign'):
             T.append(dict(mode='forged', kind=kind, node=node))
     T += [dict(mode='af_function_ua', shape=sh) for sh in DEF_SHAPES]
+    T += [dict(mode='af_function_ua', shape=sh, annotated=True) for sh in DEF_SHAPES]
     for same in (0, 1):
         for part in (0, 1):
             for two, one in ((0, 0), (0, 1), (1, 0)):
